@@ -30,6 +30,41 @@ class Inconclusive(Exception):
     pass
 
 
+class Crash(Exception):
+    """the harness process was brought down by the library itself (a violation has been recorded): stop and report"""
+    pass
+
+
+def library_panic(out):
+    """Go crash output -> {"msg","func","at","stack"} if the panicking goroutine's first non-runtime frame is library code (module path of the
+    repository, not the harness), else None."""
+    i = out.find("\npanic: ")
+    if i < 0 and out.startswith("panic: "):
+        i = -1
+    if i < 0 and not out.startswith("panic: "):
+        return None
+    body = out[i + 1:]
+    msg = body.split("\n", 1)[0][len("panic: "):]
+    m = re.search(r"\ngoroutine \d+[^\n]*\[running\]:\n", body)
+    if not m:
+        return None
+    frames = []
+    lines = body[m.end():].split("\n")
+    k = 0
+    while k + 1 < len(lines) and lines[k].strip() and not lines[k].startswith("goroutine "):
+        fn = lines[k].strip()
+        loc = lines[k + 1].strip() if lines[k + 1].startswith("\t") or lines[k + 1].startswith(" ") else ""
+        frames.append((re.sub(r"\([^()]*\)$", "", fn), loc.split(" +")[0]))
+        k += 2 if loc else 1
+    for fn, loc in frames:
+        if fn.startswith("panic") or fn.startswith("runtime.") or fn.startswith("created by") or fn.startswith("reflect.") or fn.startswith("sync."):
+            continue
+        if fn.startswith(MODPATH + "/") or fn.startswith(MODPATH + "."):
+            return {"msg": msg, "func": fn[len(MODPATH):].lstrip("/."), "at": os.path.basename(loc), "stack": ["%s %s" % f for f in frames[:10]]}
+        return None
+    return None
+
+
 def log(*a):
     print("[verif]", *a, file=sys.stderr, flush=True)
 
@@ -319,6 +354,14 @@ class Ctx:
     def must_run_go(self, binpath, test, env=None, timeout=900, args=()):
         r = self.run_go(binpath, test, env=env, timeout=timeout, args=args)
         if r.returncode != 0:
+            lp = library_panic(r.stdout)
+            if lp:
+                # the process died of a panic raised INSIDE the library (on one of its own goroutines, where no caller can recover it):
+                # that is something the real code did, not a dead driver
+                self.violation({"rule": self.prop + ".libraryPanic", "func": lp["func"]},
+                               "%s.libraryPanic: the library panicked while harness %s %s was driving it: %s in %s (%s)" % (
+                                   self.prop, os.path.basename(binpath).split("_")[0], test, lp["msg"][:200], lp["func"], lp["at"]), detail=lp)
+                raise Crash("library panic in %s" % lp["func"])
             raise Inconclusive("harness %s %s failed (rc=%d):\n%s" % (os.path.basename(binpath), test, r.returncode, r.stdout[-6000:]))
         return r
 
